@@ -5,6 +5,7 @@ fn main() {
     match ctx.id.as_str() {
         "C04" => vp_sig::c04::run(&mut ctx),
         "C05" => vp_sig::c05::run(&mut ctx),
+        "C08" => vp_sig::c08::run(&mut ctx),
         other => {
             eprintln!("vp_sig: unknown property {}", other);
             std::process::exit(2);
